@@ -613,9 +613,10 @@ func runC15Case(c kit.Case) (v kit.Verdict) {
 		}
 	}()
 	premise := "" // a scenario premise that did not hold (judged only if nothing else disagrees)
-	failedAttempts, retried, retriedAttach := 0, !reachable, 0
+	failedAttempts, retried, retriedAttach, revaluedReloads := 0, !reachable, 0, 0
 	defer func() {
 		if v.OK && !v.Infra {
+			c15Counts["revalued_reloads"] += revaluedReloads
 			c15Counts["failed_attempts"] += failedAttempts
 			c15Counts["retried_attaches"] += retriedAttach
 		}
@@ -637,6 +638,7 @@ func runC15Case(c kit.Case) (v kit.Verdict) {
 	// concurrent-reader stage: goroutines calling Values() in a tight loop while events arrive
 	readers := kit.EnvInt("VERIF_C15_READERS", 0)
 	etcd.alwaysBatch = readers > 0
+	revalued := false
 	stopReaders := make(chan struct{})
 	var rwg sync.WaitGroup
 	defer func() {
@@ -649,6 +651,10 @@ func runC15Case(c kit.Case) (v kit.Verdict) {
 		}
 		if readers > 0 {
 			return "C15:stale-cache:concurrent-reader"
+		}
+		if revalued {
+			// a reload of this history showed a key the cluster knew with another value
+			return "C15:" + kind + ":" + c15Mode(s.excl) + ":recreated-with-other-value"
 		}
 		return "C15:" + kind + ":" + c15Mode(s.excl) + ":after-" + op
 	}
@@ -672,12 +678,16 @@ func runC15Case(c kit.Case) (v kit.Verdict) {
 				parts = append(parts, x.(map[string]any))
 			}
 		}
-		key := pfx + "/" + kit.Str(st["k"])
+		key := pfx + "/" + c15Id(kit.Str(st["k"]))
 		tag := ""
 		if len(c15Multi(c)) > 0 {
 			tag = fmt.Sprintf("[%s]", pfx)
 		}
-		trail = append(trail, tag+op+":"+kit.Str(st["k"])+kit.Str(st["s"])+c15Mid(st["mid"]))
+		show := kit.Str(st["k"])
+		if show != "" && c15Id(show) != show {
+			show = fmt.Sprintf("%s(=key %s, now with value %s)", show, c15Id(show), c15Val(c, show))
+		}
+		trail = append(trail, tag+op+":"+show+kit.Str(st["s"])+c15Mid(st["mid"]))
 		if f := c15Faults(st["states"]); len(f) > 0 {
 			trail[len(trail)-1] += fmt.Sprintf("(connection states %v)", f)
 		}
@@ -687,7 +697,7 @@ func runC15Case(c kit.Case) (v kit.Verdict) {
 		switch op {
 		case "init":
 			for _, k := range kit.List(st["keys"]) {
-				etcd.apply(c15Change{key: pfx + "/" + kit.Str(k), val: c15Val(c, kit.Str(k))})
+				etcd.apply(c15Change{key: pfx + "/" + c15Id(kit.Str(k)), val: c15Val(c, kit.Str(k))})
 			}
 			continue
 		case "put":
@@ -707,13 +717,19 @@ func runC15Case(c kit.Case) (v kit.Verdict) {
 		case "resume":
 			up = true
 		case "reload":
+			for _, part := range parts {
+				if kit.Bool(part["reval"]) {
+					revalued = true
+					revaluedReloads++
+				}
+			}
 			mid := map[string][]c15Change{}
 			for _, part := range parts {
 				pp := c15Pfx(kit.Num(part["p"]))
 				for _, m := range kit.List(part["mid"]) {
 					mm := m.(map[string]any)
 					k := kit.Str(mm["k"])
-					mid[pp+"/"] = append(mid[pp+"/"], c15Change{del: kit.Str(mm["op"]) == "del", key: pp + "/" + k, val: c15Val(c, k)})
+					mid[pp+"/"] = append(mid[pp+"/"], c15Change{del: kit.Str(mm["op"]) == "del", key: pp + "/" + c15Id(k), val: c15Val(c, k)})
 				}
 			}
 			etcd.killWatchers()
@@ -1024,6 +1040,25 @@ func c15Val(_ kit.Case, k string) string {
 		return v
 	}
 	panic("c15: no value for key " + k + " in VERIF_C15_VALOF")
+}
+
+// c15Id is the name in etcd of the key whose life k is (VERIF_C15_IDOF = "r1=k1,r3=k3": r1 is the
+// key k1 registered again, with the value VERIF_C15_VALOF gives r1); by default the life's own name.
+var c15IdTable map[string]string
+
+func c15Id(k string) string {
+	if c15IdTable == nil {
+		c15IdTable = map[string]string{}
+		for _, kv := range strings.Split(kit.Env("VERIF_C15_IDOF", ""), ",") {
+			if p := strings.SplitN(kv, "=", 2); len(p) == 2 {
+				c15IdTable[p[0]] = p[1]
+			}
+		}
+	}
+	if id, ok := c15IdTable[k]; ok {
+		return id
+	}
+	return k
 }
 
 func c15Faults(v any) []string {
